@@ -75,7 +75,7 @@ package container
 //@ ensures [cb-hole] implies(self.Reg.HasHole, self.Role == RoleCreator() && self.Reg.Hole == self.ForName) && implies(self.Role == RoleEarlyRef(), self.Reg.HasHole == old(self.Reg.HasHole) && self.Reg.Hole == old(self.Reg.Hole))
 
 //@ method (SingletonComponentRegistry).GetSingleton
-//@ property C04 C01 C03
+//@ property C04 C01 C03 C02
 //@ requires [inv] RegInv(self)
 //@ requires [no-hole] !self.HasHole || !allowEarlyReference
 //@ assigns RegFrame(self), CreationFrame()
@@ -93,7 +93,7 @@ package container
 //@ ensures [failure-surfaces] implies(result1 == nil, Failed == old(Failed))
 
 //@ method (SingletonComponentRegistry).GetSingletonOrCreateByFactory
-//@ property C04 C01 C03
+//@ property C04 C01 C03 C02
 //@ requires [inv] RegInv(self)
 //@ requires [not-creating] !self.IC[name]
 //@ requires [no-hole] !self.HasHole
@@ -112,7 +112,7 @@ package container
 //@ ensures [error-means-nil] implies(result1 != nil, result0 == nil)
 
 //@ method (SingletonComponentRegistry).AddSingleton
-//@ property C04 C01 C03
+//@ property C04 C01 C03 C02
 //@ requires [inv] RegInvBut(self, name)
 //@ requires [publish-after-unmark] !self.IC[name]
 //@ requires [publish-once] !self.L1Dom[name]
@@ -123,7 +123,7 @@ package container
 //@ ensures [publishes-whole-view] self.L1Dom == store(old(self.L1Dom), name, true) && self.L1 == store(old(self.L1), name, meta) && self.L2Dom == store(old(self.L2Dom), name, false) && self.L3Dom == store(old(self.L3Dom), name, false)
 
 //@ method (SingletonComponentRegistry).AddSingletonFactory
-//@ property C04 C01 C03
+//@ property C04 C01 C03 C02
 //@ requires [inv] RegInv(self)
 //@ requires [early-factory] method != nil && method.Role == RoleEarlyRef() && method.ForName == name && method.Reg == self
 //@ requires [not-answered-yet] !self.L1Dom[name] && !self.L2Dom[name]
@@ -135,7 +135,7 @@ package container
 //@ ensures [fills-hole] self.HasHole == (old(self.HasHole) && self.Hole != name)
 
 //@ method (SingletonComponentRegistry).RemoveSingleton
-//@ property C04 C01 C03
+//@ property C04 C01 C03 C02
 //@ requires [inv] RegInv(self)
 //@ requires [not-the-hole] !self.HasHole
 //@ assigns self.L1Dom, self.L2Dom, self.L3Dom, self.IC
@@ -143,7 +143,7 @@ package container
 //@ ensures [removes-whole-view] self.L1Dom == store(old(self.L1Dom), name, false) && self.L2Dom == store(old(self.L2Dom), name, false) && self.L3Dom == store(old(self.L3Dom), name, false) && self.IC == store(old(self.IC), name, false)
 
 //@ method (SingletonComponentRegistry).IsSingletonCurrentlyInCreation
-//@ property C04 C01 C03
+//@ property C04 C01 C03 C02
 //@ requires [inv] RegInv(self)
 //@ assigns nothing
 //@ ensures [reports-mark] result == self.IC[name]
